@@ -593,6 +593,14 @@ func (m *obsModel) observe(n *e1Node, e *logEntry, outs []outMsg, before *priv) 
 			}
 		case oc == "NICK" && pm.Prefix != nil && len(pm.Params) == 1:
 			subj := subjectByPrefix()
+			if subj == nil {
+				// the prefix does not name a nickname (a registered session that turned itself into a services
+				// link keeps nickname and channels but carries the server name): the subject is the session
+				// that holds the new nickname afterwards
+				if sa := sessByNick(after, pm.Params[0]); sa != nil {
+					subj = before.Sess[[2]uint64{sa.Id, sa.Reply}]
+				}
+			}
 			allowed := map[uint64]bool{}
 			if subj != nil {
 				allowed[subj.Id] = true
